@@ -17,13 +17,13 @@ import vlib
 
 SRC = vlib.BASE_SRC + vlib.EVENT_SRC + ["eventx/timer_pool.cpp"]
 DEFS = vlib.BASE_DEFS + vlib.EVENT_DEFS
-ACTIONS = ["NDoEvery", "NDoAfter", "NDoAt", "DoNull", "NCancel", "Cleanup", "Destroy", "NAdvance", "LoopStart", "LoopStop", "PassBegin",
-           "NFireOne", "CbEnd", "PassEnd"]
+ACTIONS = ["NDoEvery|DoEvery", "NDoAfter|DoAfter", "NDoAt|DoAt", "DoNull", "NCancel|Cancel", "Cleanup", "Destroy", "NAdvance|Advance",
+           "LoopStart", "LoopStop", "PassBegin", "NFireOne|FireOne", "CbEnd", "PassEnd"]
 AS_FOUND = [("clear_resets_id", "TokenUnique"), ("lazy_cancel", "NoFireAfterCancel"), ("delete_now", "NoDeleteRunning"),
             ("oneshot_keeps_token", "CancelTruth"), ("cleanup_no_disable", "NoFireAfterCancel"), ("cancel_leaks", "NoLeak"),
             ("rearm_now", "NoSkip")]
 HARNESS_ENV = {"ASAN_OPTIONS": vlib.SAN_ENV["ASAN_OPTIONS"].replace("detect_leaks=0", "detect_leaks=1")}
-MAXLINES = 40000
+MAXLINES = 60000
 BASES = [1000, 123456789, 2 ** 40]
 
 
@@ -139,7 +139,8 @@ def rand_script(rnd, family):
 
 # ---------------------------------------------------------------------------------------------------------------------
 def est_lines(s):
-    return 3 * len(s["top"]) + 4 * sum(len(v) + 2 for v in s["cb"].values()) + 12
+    # measured: 1.5 - 4 lines per scripted operation (fires included); chunks must stay far below TLC's 65535 states per behaviour
+    return 4 * len(s["top"]) + 4 * sum(len(v) + 1 for v in s["cb"].values()) + 12
 
 
 def run_scripts(ctx, exe, scripts, tag, counted_as, cfg="Trace_TimerPool.cfg"):
@@ -267,20 +268,20 @@ def run(ctx):
         scripts = dedupe([script_of(b, 3, BASES[k % 3]) for k, b in enumerate(behs)])
         total = len(scripts)
         if quick:
-            scripts = random.Random(ctx.seed).sample(scripts, min(len(scripts), 6000))
+            scripts = random.Random(ctx.seed).sample(scripts, min(len(scripts), 3000))
         run_scripts(c, exe, scripts, "focus", "replay")
         return scripts, total
 
     def j_life(c):
-        behs = c.tlc_gen("TimerPool", "Gen_TimerPool.tla", "Gen_life.cfg", simulate=(400 if quick else 6000, 40), timeout=600, workers=1,
-                         limit=2500 if quick else 40000)
+        behs = c.tlc_gen("TimerPool", "Gen_TimerPool.tla", "Gen_life.cfg", simulate=(2500 if quick else 40000, 40), timeout=600, workers=1,
+                         limit=1000 if quick else 40000)
         scripts = dedupe([script_of(b, 2, 1000) for b in behs])
         run_scripts(c, exe, scripts, "life", "replay")
         return scripts
 
     def j_deep(c):
-        behs = c.tlc_gen("TimerPool", "Gen_TimerPool.tla", "Gen_sim.cfg", simulate=(250 if quick else 5000, 90), timeout=600, workers=1,
-                         limit=1500 if quick else 30000)
+        behs = c.tlc_gen("TimerPool", "Gen_TimerPool.tla", "Gen_sim.cfg", simulate=(3000 if quick else 60000, 90), timeout=600, workers=1,
+                         limit=500 if quick else 30000)
         scripts = dedupe([script_of(b, 4, BASES[k % 3]) for k, b in enumerate(behs)])
         run_scripts(c, exe, scripts, "deep", "replay")
         return scripts
@@ -288,7 +289,7 @@ def run(ctx):
     # 3. code -> spec: seeded random scripts ---------------------------------------------------------------------------
     def j_random(c):
         rnd = random.Random(ctx.seed)
-        nrand = 1500 if quick else 20000
+        nrand = 700 if quick else 20000
         rs = [rand_script(rnd, ("general", "general", "shared")[j % 3]) for j in range(nrand)]
         ok, tr = run_scripts(c, exe, rs, "random", "trace")
         return [json.loads(x) for x in vlib.read_lines(tr, 1, 16)] if tr else []
